@@ -177,9 +177,7 @@ func ruleLogReader(c *Ctx, rule string) {
 				continue
 			}
 			loc, _ := g.Locate(rd)
-			leak := pathSearchFlags(f, g, loc, func(cond ast.Expr) (bool, bool) {
-				return evalErrCond(f, cond, errObj, sentinel)
-			}, func(n ast.Node) Verdict {
+			leak := pathSearchErrs(f, g, loc, map[types.Object]string{errObj: sentinel}, func(n ast.Node) Verdict {
 				cut := false
 				ast.Inspect(n, func(y ast.Node) bool {
 					if call, ok := y.(*ast.CallExpr); ok {
